@@ -75,6 +75,10 @@ M = [
     ("c12-len-after-flush", "C12", "xonsh/history/json.py", "        self.buffer.append(cmd)\n        self._len += 1  # must come before flushing\n", "        self.buffer.append(cmd)\n"),
     ("c12-front-always", "C12", "xonsh/history/json.py", '        """Tests if the flusher is at the front of the queue."""\n        return self is self.queue[0]', '        """Tests if the flusher is at the front of the queue."""\n        return True'),
     # ---- C18: (choosing the other quote character in _quote_to_use is an equivalent mutant - the escaping follows the choice)
+    # ---- C12 schedules
+    ("c12-reader-does-not-wait", "C12", "xonsh/history/json.py", "            self.hist._cond.wait_for(self.i_am_at_the_front)\n            with open(self.hist.filename", "            with open(self.hist.filename"),
+    ("c12-flusher-no-notify", "C12", "xonsh/history/json.py", "    def run(self):\n        with self.cond:\n            self.cond.wait_for(self.i_am_at_the_front)\n            self.dump()\n            self.queue.popleft()\n            self.cond.notify_all()", "    def run(self):\n        with self.cond:\n            self.cond.wait_for(self.i_am_at_the_front)\n            self.dump()\n            self.queue.popleft()"),
+    ("c12-popleft-before-dump", "C12", "xonsh/history/json.py", "    def run(self):\n        with self.cond:\n            self.cond.wait_for(self.i_am_at_the_front)\n            self.dump()\n            self.queue.popleft()\n            self.cond.notify_all()", "    def run(self):\n        with self.cond:\n            self.cond.wait_for(self.i_am_at_the_front)\n            self.queue.popleft()\n            self.cond.notify_all()\n        self.dump()\n        with self.cond:\n            pass"),
 ]
 
 
